@@ -10,7 +10,7 @@ LOG="$OUT/confirm.log"; : > "$LOG"
 git -C /repo worktree add -q --detach "$WT" HEAD || exit 2
 trap 'git -C /repo worktree remove --force "$WT" >/dev/null 2>&1' EXIT
 WRAPS=$(grep -h -o -- '-Wl,--wrap[^ `]*' "$D/README.md" | head -1)
-cp "$D"/*.c "$D"/*.h "$WT"/ 2>/dev/null
+cp "$D"/*.c "$D"/*.h "$D"/*.inc "$WT"/ 2>/dev/null
 build_demo() { (cd "$WT" && cc -O1 -g -w demo.c -I. -Imatrixssl -Icore/config -Icore/include -Icore/osdep/include -Icore/include/sfzcl -Icrypto $WRAPS matrixssl/libssl_s.a crypto/libcrypt_s.a core/libcore_s.a -lpthread -o demo_bin) >> "$LOG" 2>&1; }
 (cd "$WT" && make libs -j8) >> "$LOG" 2>&1 || { echo "clean build failed" >> "$LOG"; }
 build_demo; (cd "$WT" && timeout 600 ./demo_bin) > "$OUT/demo.clean.out" 2>&1; RC_CLEAN=$?
@@ -22,7 +22,7 @@ for t in algorithmTest eccTest rsaTest hmacTest cryptoOpen; do
   tail -3 "$OUT/test-$t.out" > "$OUT/test-$t.tail"; rm -f "$OUT/test-$t.out"
 done
 build_demo; (cd "$WT" && timeout 600 ./demo_bin) > "$OUT/demo.seeded.out" 2>&1; RC_SEED=$?
-cp "$D/patch.diff" "$OUT/"; cp "$D"/demo.c "$D"/*.h "$D"/README.md "$OUT"/ 2>/dev/null
+cp "$D/patch.diff" "$OUT/"; cp "$D"/demo.c "$D"/*.h "$D"/*.inc "$D"/README.md "$OUT"/ 2>/dev/null
 python3 - "$P" "$N" "$NEEDS" "$RC_CLEAN" "$APPLY" "$RC_MAKE" "$TESTS" "$TFAIL" "$RC_SEED" "$WRAPS" <<'PY'
 import json, sys, subprocess
 p, n, needs, rcc, ap, rcm, tests, tf, rcs, wraps = sys.argv[1:11]
